@@ -36,6 +36,8 @@ CORPUS = [
     'int f(int x,int y){ while (x<3) { } }',
     'int f(int x, int y){ while (x < y) { x = x + y; } while (y < 3) { y = y * y; } }',
     'int f(int x,int y){ assert(x < 1); assume(y); while (x) { assert(x); x = x + y; } }', 'int f(int x){ assert(x < 1) ; g(x); assume(g(x)); }',
+    'int f(int i,int n,int x){ while (i < n) a[i] = 0; for (i = 0; i < n; i++) a[i] = x; do g(x); while (x < 1); }',
+    'int f(int i,int n){ while (i < n) { } do { } while (i < n); for (i = 0; i < n; i++) { } while (i) ; }',
     'int f(int *p, int i){ (*p)[i]; }', 'int f(int *p, int i){ return (*p)[i]; }',
     'int f(int *p, int i){ while (i) { (p + 1)[i]; } }', 'int f(int i){ s.arr[i] = 1; (&s)->arr[i] = 2; }',
     'int f(int x){ x = ((int*)x)[0]; }', 'int f(int x,int y){ y = (int)(long)x + 1; y = -(long)(int)x; }',
